@@ -47,6 +47,10 @@ func monitorsExtra(m *mon) {
 			if m.clean() && sm.v > sm.aux {
 				m.add("C18", "not-trimmed", "%d idle workers at t=%d after the expiry elapsed, configured minimum %d", sm.v, sm.t, sm.aux)
 			}
+		case "reapers-at-rest":
+			if sm.v > 1 {
+				m.add("C18", "reapers-accumulate", "%d idle-worker reaper goroutines alive at rest (t=%d): Restart cycles leave goroutines behind", sm.v, sm.t)
+			}
 		case "goroutines-after-stop":
 			if m.clean() && sm.v > 0 {
 				m.add("C18", "leak-after-stop", "%d library goroutines still alive at t=%d after Stop returned and the system came to rest", sm.v, sm.t)
